@@ -195,13 +195,15 @@ def c02():
                      "C02_clusters_nonempty", "C02_centroid_is_majority",
                      "C02_exact_labels", "C02_labels_nonvacuous"],
         "suites": [suite_sub.suite_sub, suite_hist.suite_boundary, suite_hist.suite_tree_walk,
-                   suite_hist.suite_seq_refine("C02")],
-        "search": suite_hist.search_hist("C02"),
-        "replay": suite_hist.replay_hist("C02"),
+                   suite_hist.suite_seq_refine("C02"), __import__('suite_rebuild').suite_rebuild],
+        "search": (lambda seed, tier, failures: __import__('suite_rebuild').search(seed, tier, [f for f in failures if isinstance(f[1], dict) and "rebuild_case" in f[1]]) if any(isinstance(f[1], dict) and "rebuild_case" in f[1] for f in failures) else (suite_hist.search_hist("C02")(seed, tier, failures) or __import__('suite_rebuild').search(seed, tier, []))),
+        "replay": (lambda payload: __import__('suite_rebuild').replay(payload) if "rebuild_case" in (payload.get("failing_input") or {}) else suite_hist.replay_hist("C02")(payload)),
         "level": "proof",
         "rule": HIST_RULE + "; sub-unit stream: _BFSubcluster construct/update/merge with counts in "
                 "{1..3,127,128,254..257,65534..65537,2^32-2..2^32+1,2^40} comparing values and dtype; "
-                "boundary stream: clusters and inner entries crossing 255->256 members",
+                "boundary stream: clusters and inner entries crossing 255->256 members; rebuild: a tree saved as "
+                "buffer files (hundreds of clusters per file) and rebuilt with _fit_buffers from the path, the "
+                "array and a list",
         "trusted": HIST_TRUST,
         "assumptions": ["the X given to refinement is the data that was fitted (op_data)",
                         "counts >= 2^64 are refused by the real code (checked), out of the model"],
@@ -311,7 +313,7 @@ def c20():
                      "C20_nonvacuous", "C20_two_readers_safe", "C20_two_readers_monotone", "C20_reader_exists_then_open_safe", "C20_reader_exists_then_open_refines",
                      "C20_published_never_disappears", "C20_source_tie_update_cond"],
         "model_files": ["Model/Monitor.v", "Gen/GMon.v", "Proofs/GenTieMon.v"],
-        "suites": [suite_monitor.suite_monitor, suite_monitor.suite_monitor_interleave],
+        "suites": [suite_monitor.suite_monitor, suite_monitor.suite_monitor_interleave, suite_monitor.suite_monitor_vs_run],
         "search": suite_monitor.search_c20,
         "replay": suite_monitor.replay_c20,
         "level": "proof",
